@@ -224,6 +224,7 @@ class Ctx:
         self.ties = {}            # name -> dict(compared, disagreements)
         self.disagreements = []   # (tie name, case, impl, model) of property-level ties
         self.repr_disagreements = []   # the same for representation-level ties (never a verdict by themselves)
+        self.bad_case_hashes = set()   # hashes of every case on which a property-level tie disagreed
         self.violations = []      # dict(what, case, footprint)
         self.notes = []
         self.exhaustive = []
@@ -291,6 +292,11 @@ class Ctx:
             t["compared"] += 1
             if a != b:
                 t["disagreements"] += 1
+                if level == "property":
+                    try:
+                        self.bad_case_hashes.add(chash(c))   # ALL disagreeing cases (the kept list below is capped)
+                    except Exception:  # noqa: BLE001
+                        pass
                 if len(sink) < keep or (len(sink) < 10 * keep and name not in {d[0] for d in sink}):
                     sink.append((name, c, r, m))
         if not cases:
